@@ -43,37 +43,57 @@ func strMap(name string, keys []string) *val.Val {
 	return m.Vl()
 }
 
+// strMapLike: an equal map built from fresh objects.
+func strMapLike(m *val.Val) *val.Val {
+	out := val.Map(m.Type.Map()).Map()
+	for k, v := range m.Map().V {
+		out.V[k] = val.Num(v.Num().V)
+	}
+	return out.Vl()
+}
+
 var c13Render = []string{
 	"string(m)",
 	"string([m])",
 	"string({f: m})",
 	"string(m) == string(m)",
 	"string(union([m], [m]))",
+	// the same map value at two positions of one rendered value
+	"string([m, m])", "string({f: m, g: m})", "string([\"a\": m, \"b\": m])", "string([[m], [m]]) + string(m)",
+	// ... and under two names: whether m2 is the very same value object as m or an equal one makes no difference
+	"string([m, m2])", "string({f: m, g: m2}) + string([m2, m])", "string([[m2], [m, m2]])",
 }
 
 // H13_render: text produced from a value does not depend on the iteration
 // order of Go maps.
 func H13_render() {
 	src := c13Render[sv.Choice("prog", len(c13Render))]
-	n := 2
+	n := sv.Choice("entries", 3) // 0, 1 or 2 entries (the empty map included)
 	if sv.Thorough() {
-		n = 2 + sv.Choice("entries", 2)
+		n = sv.Choice("entries", 4)
 	}
 	keys := []string{"k", "a\"b", "é"}[:n]
 	m := strMap("m", keys)
 	tenv := types.NewEnv()
 	tenv.Put("m", m.Type)
+	tenv.Put("m2", m.Type)
 	e := exprWith(sv.Choice("backend", hx.NBackends))
 	c, err := e.Compile(src, tenv)
 	sv.Assert("compiles", err == nil)
+	twin := strMapLike(m) // an equal value built from fresh objects
+	second := m
 	run := func() *val.Val {
 		venv := val.NewEnv()
 		venv.Put("m", m)
+		venv.Put("m2", second)
 		r, err := c(venv)
 		sv.Assert("evaluates", err == nil && r != nil)
 		return r
 	}
 	base := run()
+	second = twin
+	sv.Assert("same-text-whether-a-value-is-shared-or-copied", hx.RefSameVal(base, run()))
+	second = m
 	sv.MapOrder(1) // every iteration order from here on
 	for i := 0; i < sv.Repeats(300); i++ {
 		again := run()
